@@ -25,6 +25,8 @@ func TestVerif(t *testing.T) {
 		"C13": func(c *vsched.RunCtx) { checkME(c, "C13") },
 		"C14": func(c *vsched.RunCtx) { checkME(c, "C14") },
 		"C10": checkMERaces,
+		// development entry: the tuple harness alone
+		"MEPAIRS": func(c *vsched.RunCtx) { runMEPairs(c, false) },
 	})
 }
 
@@ -686,6 +688,8 @@ func checkME(c *vsched.RunCtx, prop string) {
 	if c.Replay != nil {
 		if c.Replay.Harness == "sched:me-timers" {
 			runMEDrivers(c, false)
+		} else if c.Replay.Harness == "me-pairs" {
+			runMEPairs(c, false)
 		} else {
 			replayME(c, prop)
 		}
@@ -694,6 +698,8 @@ func checkME(c *vsched.RunCtx, prop string) {
 	if prop == "C14" {
 		runMEDrivers(c, false)
 	}
+	// tuple linearizability (me_pairs.go): pairs and triples of operations overlapped in every schedule
+	runMEPairs(c, false)
 	cfgs := meConfigs(c.Thorough())
 	idx, sub, nsub := c.Split(len(cfgs))
 	for _, i := range idx {
@@ -877,5 +883,8 @@ func runMEDrivers(c *vsched.RunCtx, race bool) {
 
 func checkMERaces(c *vsched.RunCtx) {
 	runMEDrivers(c, true)
+	if c.Replay == nil || c.Replay.Harness == "me-pairs" {
+		runMEPairs(c, true)
+	}
 	c.Assume("multiendpoint driver: two due timers, SetEndpoints, SetEndpointAvailability and a Current() reader as concurrent threads on the real multiEndpoint")
 }
